@@ -134,3 +134,50 @@ def counting_chunks(fail_at=None):
         rr.chunks = orig
         mm.read_sunvox_file = orig_mm
         sm.read_sunvox_file = orig_sm
+
+
+class InjectedDiagnosticFault(Exception):
+    pass
+
+
+@contextlib.contextmanager
+def failing_diagnostics(fail_at=None, warnings_as_errors=False):
+    """Count every diagnostic the library emits (records on the "rv" logger tree and Python
+    warnings); make the fail_at-th one fail the way a user-installed logging handler that
+    raises, or `-W error`, does.  Both are ordinary process configurations a load can run under."""
+    import logging
+    import warnings
+
+    state = {"n": 0, "fired": False, "warnings": 0}
+
+    class H(logging.Handler):
+        def emit(self, record):
+            i = state["n"]
+            state["n"] += 1
+            if fail_at is not None and i == fail_at:
+                state["fired"] = True
+                raise InjectedDiagnosticFault("injected failure in logging handler at record %d" % i)
+
+    lg = logging.getLogger("rv")
+    h = H(level=logging.DEBUG)
+    old_level, old_prop = lg.level, lg.propagate
+    lg.addHandler(h)
+    lg.propagate = False
+    disabled = logging.root.manager.disable
+    logging.disable(logging.NOTSET)  # the harness silences logging globally; diagnostics are the subject here
+    if lg.getEffectiveLevel() > logging.WARNING:
+        lg.setLevel(logging.WARNING)
+    with warnings.catch_warnings(record=not warnings_as_errors) as caught:
+        if warnings_as_errors:
+            warnings.simplefilter("error")
+        else:
+            warnings.simplefilter("always")
+        try:
+            yield state
+        finally:
+            lg.removeHandler(h)
+            logging.disable(disabled)
+            lg.setLevel(old_level)
+            lg.propagate = old_prop
+            if caught is not None:
+                state["warnings"] = len(caught)
